@@ -1,6 +1,7 @@
 import AslModel.Codec
 import AslModel.Sha1
 import AslProofs.Codec
+import AslProofs.Sha1
 /-!
 # C15 — Base64, hex, percent-encoding and SHA-1 match their standards on all inputs
 
@@ -237,6 +238,24 @@ theorem url_encode_safe (s : List UInt8) (component : Bool) :
         · exact Or.inl ha
         · exact Or.inr (Or.inl (h (by simpa using ha)))
     · exact ih c hc
+
+/-! ## SHA-1 -/
+
+/-- **sha1_eq_spec.**  `SHA1::hash` (streaming `update`/`end` with the 64-byte buffer, the in-place circular
+    16-word schedule and padding through repeated one-byte updates) equals FIPS 180-4 SHA-1 (pad the whole
+    message, 80-word schedule, fold the compression function) for every message. -/
+theorem sha1_eq_spec (m : List UInt8) : AslModel.Sha1.Impl.hash m = AslModel.Sha1.Fips.sha1 m :=
+  AslProofs.Sha1.hash_eq_fips m
+
+/-- the digest does not depend on how the message is cut into `update` calls -/
+theorem sha1_chunking_irrelevant (ds : List (List UInt8)) :
+    AslModel.Sha1.Impl.hashChunks ds = AslModel.Sha1.Fips.sha1 ds.flatten :=
+  AslProofs.Sha1.hashChunks_eq_fips ds
+
+/-- the specification itself on the FIPS 180 test vector "abc" (a test of the spec, labelled as such) -/
+theorem fips_spec_abc : AslModel.Sha1.Fips.sha1 [97, 98, 99] =
+    [0xA9, 0x99, 0x3E, 0x36, 0x47, 0x06, 0x81, 0x6A, 0xBA, 0x3E, 0x25, 0x71, 0x78, 0x50, 0xC2, 0x6C, 0x9C, 0xD0, 0xD8, 0x9D] := by
+  decide +kernel
 
 /-! ## non-vacuity / sanity instances (tests, labelled as such) -/
 
